@@ -333,6 +333,73 @@ fn cmd_random(out: &str, n_lop: usize, n_long: usize) {
         tr.emit(&json!({"op":"ts","x":x,"aff":rows,"frac":frac}));
         n += 1;
     }
+    // Mann-Kendall on long block-structured series (closed-form S and variance; see Trace_RankStats mkb): 2..7 blocks, each
+    // constant, strictly increasing or strictly decreasing, 300..4000 points in total, tie groups of up to thousands of points;
+    // kept when the trend is moderate (the p-value is then neither 1 nor at the reportable floor)
+    let mut kept = 0usize;
+    let mut tries = 0usize;
+    while kept < n_long && tries < 400_000 {
+        tries += 1;
+        let total = *rng.pick(&[300usize, 800, 1290, 1291, 1400, 1500, 2000, 2600, 3000, 4000]);
+        let k = 2 + rng.below(6) as usize;
+        // sizes: cut points; mirrored sizes keep S small
+        let mut sizes: Vec<usize> = (0..k).map(|_| 1 + rng.below(100) as usize).collect();
+        let sum: usize = sizes.iter().sum();
+        for c in sizes.iter_mut() {
+            *c = (*c * total / sum).max(1);
+        }
+        if rng.chance(2, 3) {
+            for j in 0..k / 2 {
+                sizes[k - 1 - j] = (sizes[j] + rng.below(9) as usize).max(1);
+            }
+        }
+        let mut blocks: Vec<(usize, i64, i64)> = vec![];
+        let mut odd = 1i64;
+        for (j, c) in sizes.iter().enumerate() {
+            let kind = match rng.below(4) { 0 => 1, 1 => -1, _ => 0 };
+            let level = if kind == 0 {
+                // mirrored levels for constant blocks
+                if j >= k / 2 && rng.chance(2, 3) { blocks.get(k - 1 - j).filter(|b| b.2 == 0).map(|b| b.1).unwrap_or(2 * rng.below(4) as i64) } else { 2 * rng.below(4) as i64 }
+            } else {
+                let l = odd + 2 * rng.below(3) as i64;
+                odd = l + 2;
+                if rng.chance(1, 2) { l } else { -l }
+            };
+            blocks.push((*c, level, kind));
+        }
+        // levels of non-constant blocks must be unique
+        let uniq = blocks.iter().enumerate().all(|(i, a)| blocks.iter().enumerate().all(|(j, b)| i == j || a.1 != b.1 || (a.2 == 0 && b.2 == 0)));
+        if !uniq {
+            continue;
+        }
+        let n_tot: usize = blocks.iter().map(|b| b.0).sum();
+        let mut s_est = 0f64;
+        for (j, b) in blocks.iter().enumerate() {
+            s_est += b.2 as f64 * (b.0 * (b.0 - 1) / 2) as f64;
+            for a in blocks.iter().take(j) {
+                s_est += (a.0 * b.0) as f64 * ((b.1 - a.1).signum() as f64);
+            }
+        }
+        let sd_est = ((n_tot as f64).powi(3) / 9.0).sqrt();
+        // stimulus selection only (the judge derives everything itself): keep moderate trends, and a few extreme ones
+        if s_est.abs() > 6.0 * sd_est && !rng.chance(1, 200) {
+            continue;
+        }
+        let mut v: Vec<f64> = Vec::with_capacity(n_tot);
+        for b in &blocks {
+            for i in 0..b.0 {
+                let off = match b.2 { 1 => i as f64, -1 => (b.0 - i) as f64, _ => 0.0 };
+                v.push(b.1 as f64 * 1.0e5 + off);
+            }
+        }
+        let mk = mann_kendall(&v);
+        let mut frac = 0u32;
+        let p = phl(mk.p_value);
+        tr.emit(&json!({"op":"mkb","blocks":blocks.iter().map(|b| vec![b.0 as i64, b.1, b.2]).collect::<Vec<_>>(),
+                        "s":as_int(mk.s, &mut frac),"p":[p.0, p.1],"frac":frac,"n":n_tot}));
+        kept += 1;
+        n += 1;
+    }
     for i in 0..n_long {
         let len = *rng.pick(&[40usize, 60, 61, 120, 500, 1000]);
         let style = rng.below(5);
